@@ -23,6 +23,12 @@ CLAIMED = {
  "C04": ("TLA+ wall-clock calendar arithmetic (OpsArith.tla: AddMonths clamping, then days/time on the wall clock, default-fold normalisation); TLC trace validation over month shapes and tz-database anomalies",
          "every recorded add()/subtract()/+ Duration/- Duration/+ (-Duration)/Duration + dt call on DateTime and Date - every month length, leap day and year boundary x month shifts beyond +-12 and day shifts beyond a month, targets aimed into the gaps and overlaps enumerated from the tz data with sources of both folds, random mixed-sign components - is judged by TLC against AddCal / AddCalDate; the three operator paths are each compared with the SPEC, not with each other",
          "TLC, tz database as above, harness projection; Duration operands restricted to canonical signatures (soundness rule 2)", "7 C04"),
+ "C05": ("TLA+ exact elapsed time between derived instants (OpsDiff.Elapsed over Zones/TimeScale); TLC trace validation of interval lengths for endpoint pairs around every transition",
+         "every recorded interval()/Interval/b - a/diff/abs/native-subtraction call - endpoint pairs on either side of and inside every tz-database transition, both folds, same tzinfo object / same name other object / different zones / fixed offsets, Date and naive pairs, random pairs over years 2..9998 - is judged by TLC: native timedelta slots against the exact Dur3 difference of the two instants (64 us tolerance beyond 2^33 s), in_seconds/in_minutes/in_hours as truncation toward zero, magnitude for the absolute entry points",
+         "TLC, tz database as above, harness projection (timedelta slots read through the base-class descriptors)", "7 C05"),
+ "C06": ("TLA+ decomposition predicate (OpsDiff.ValidDecomposition = canonical ranges and AddCal(start, comps) = end, rebuilt with the SPEC's AddCal) + AlgPD transcription of precise_diff model-checked for refinement per branch (MC_Diff); TLC trace validation of Interval components and of both helper back-ends",
+         "TLC checks over all date pairs of a window of years in which branches precise_diff's algorithm refines the predicate (all but the 'full month' branch); every recorded Interval (month/day x month/day x leap pattern x borrow product, zone pairs around transitions, reversed and random pairs) is judged by TLC: ranges, rebuild of the end in the common zone or in UTC, in_months, a + (b - a), add(components), each helper back-end separately and their equality; the property's premise is evaluated by the spec",
+         "TLC, tz database as above, harness projection; spans beyond 2^33 s are outside the float-exact range of Interval and not judged", "7 C06"),
 }
 NOT_YET = "check not built yet in this round (planned: see DESIGN.md section 7)"
 
